@@ -17,7 +17,13 @@
                                       `d.get(k)` returns the newest entry.  The list is therefore also the history of
                                       every binding ever recorded (used by `solved`).
    exception UnifyError / OccursCheck Raise UnifyError / Raise OccursCheck
-   RecursionError (unbounded depth)   OutOfFuel  (fuel = bound on the recursion depth)                              *)
+   RecursionError (unbounded depth)   OutOfFuel  (fuel = bound on the recursion depth)
+
+   Domain of the model (checked by the tie in harness/props/C14.py): values are None, ints and Terms built from them
+   (no Var objects, no probabilities); context indices are in range; and NO INTEGER CONSTANT HAS THE NUMBER OF AN ENGINE
+   VARIABLE OF THE SAME CALL: Python's `Constant.__eq__` compares str(), so `-2 == Constant(-2)` is True and the
+   `if value2 != value` of unify_value's variable/variable branch then skips a binding; `pval_eqb` keeps PVar and
+   PTerm apart (finding `int-constant-equals-variable-number`, notes/C14.md).                                         *)
 From Coq Require Import NArith ZArith List Bool.
 From PL.C14 Require Import ModelUnify.
 Import ListNotations.
